@@ -54,7 +54,14 @@ def main(argv=None):
             if cnt[k] < v:
                 raise AnalysisError("only %d %s parsed (< %d): the build is not covered" % (cnt[k], k, v))
         chk.extra["parsed"] = cnt
-        mod.run(repo, chk, tier)
+        try:
+            mod.run(repo, chk, tier)
+        except AnalysisError as e:
+            if not chk.violations:
+                raise
+            # a violation found so far explains why a later kernel can no longer be modelled
+            chk.info("analysis stopped early after the violation(s) above: %s" % e)
+            chk.min_counts.clear()
         return chk.finish()
     except AnalysisError as e:
         print("ANALYSIS-ERROR property=%s %s" % (pid, e))
